@@ -101,9 +101,9 @@ fn any_vti() -> VerificationTypeInfo {
 fn two_vti() -> VerificationTypeInfo { if sym::bool() { VerificationTypeInfo::Top {} } else { VerificationTypeInfo::Object { cpool_index: sym::u16() } } }
 fn smt(frame: StackMapFrame) -> AttributeInfo { let mut v = Vec::with_capacity(1); v.push(frame); AttributeInfo::StackMapTable { attribute_name_index: 1, entries: v } }
 
-//# {"id":"c20_frame_append_1","props":["C20"],"tier":"quick","cap":1200,"bound":"StackMapTable with one AppendFrame of 1 local (Top or Object with symbolic index), symbolic offset: framing, announced length, read(write(x)) == x; unwind 16","fns":["AttributeInfo::{_write,_len,_read}","StackMapFrame::{_write,_len,_read}","VerificationTypeInfo::{_write,_len,_read}","pool_has_utf8"]}
-//# {"id":"c20_frame_append_3","props":["C20"],"tier":"quick","cap":1200,"bound":"... AppendFrame of 3 locals; unwind 16","fns":["StackMapFrame::{_write,_len,_read}"]}
-//# {"id":"c20_frame_chop_full","props":["C20"],"tier":"quick","cap":1200,"bound":"ChopFrame (k symbolic 1..=3) and FullFrame (1 local, 1 stack item), symbolic offsets; unwind 16","fns":["StackMapFrame::{_write,_len,_read}"]}
+//# {"id":"c20_frame_append_1","props":["C20"],"tier":"thorough","cap":3600,"bound":"StackMapTable with one AppendFrame of 1 local (Top or Object with symbolic index), symbolic offset: framing, announced length, read(write(x)) == x; unwind 16","fns":["AttributeInfo::{_write,_len,_read}","StackMapFrame::{_write,_len,_read}","VerificationTypeInfo::{_write,_len,_read}","pool_has_utf8"]}
+//# {"id":"c20_frame_append_3","props":["C20"],"tier":"thorough","cap":3600,"bound":"... AppendFrame of 3 locals; unwind 16","fns":["StackMapFrame::{_write,_len,_read}"]}
+//# {"id":"c20_frame_chop_full","props":["C20"],"tier":"thorough","cap":3600,"bound":"ChopFrame (k symbolic 1..=3) and FullFrame (1 local, 1 stack item), symbolic offsets; unwind 16","fns":["StackMapFrame::{_write,_len,_read}"]}
 //# {"id":"c20_stack_map_roundtrip","props":["C20"],"tier":"thorough","cap":3600,"bound":"StackMapTable with one frame of each of the seven kinds (symbolic offsets, chop count 1..=3, append with 1..=3 locals, full frame with one local and one stack item, every verification type with symbolic index): attribute_length, announced length, and read(write(x)) == x consuming all bytes; unwind 16","fns":["AttributeInfo::{_write,_len,_read}","StackMapFrame::{_write,_len,_read}","VerificationTypeInfo::{_write,_len,_read}","pool_has_utf8"]}
 //# {"id":"c20_simple_roundtrip","props":["C20"],"tier":"quick","cap":1500,"bound":"read(write(x)) == x for EnclosingMethod, NestMembers (2 entries), MethodParameters (1 entry), Exceptions (1 entry) with symbolic field values; unwind 24","fns":["AttributeInfo::{_write,_len,_read}","pool_has_utf8"]}
 //# {"id":"c20_attr_fixed","props":["C20"],"tier":"quick","cap":600,"bound":"the nine fixed-size attributes (ConstantValue, EnclosingMethod, Synthetic, Signature, SourceFile, Deprecated, ModuleMainClass, NestHost) with all u16 field values; unwind 8","fns":["raw_class_file::AttributeInfo::{_write,_len}"]}
